@@ -51,7 +51,9 @@ def window_vals(w, nfft):
     return np.asarray(o, dtype=float) if np.iterable(o) else np.asarray(o(np.ones(nfft)), dtype=float)
 
 
-def method_of(cfg, with_fs=True, dense=False):
+def method_of(cfg, with_fs=True, dense=False, for_impl=False):
+    if for_impl and cfg.get("method_none"):
+        return None                                   # every method entry at its default (NFFT 64, Hanning, NFFT // 2)
     m = {"this_method": "welch"}
     if cfg.get("nfft_in_method", True):
         m["NFFT"] = cfg["nfft"]
@@ -67,6 +69,14 @@ def method_of(cfg, with_fs=True, dense=False):
 def rows_of(cfg, key):
     """float64 2-d array of cfg[key] ('data' | 'seeds' | 'targets'): literal hex rows, or a small reproducible
     spec for the large oracle-only cases (values are short dyadics times 2**exp, so scaling is exact)"""
+    x = _rows_of(cfg, key)
+    ce = (cfg.get("chan_exp") or {}).get(key)
+    if ce is not None:
+        x = x * (2.0 ** np.asarray(ce, dtype=float))[:, None]        # exact: powers of two
+    return x
+
+
+def _rows_of(cfg, key):
     spec = cfg.get(key + "_spec")
     if spec is None:
         return np.array([unhex(r) for r in cfg[key]], dtype=float)
@@ -135,6 +145,8 @@ def reference(data, nfft, fs, wv, ovl, pairs, chans):
 
 def band_of(cfg):
     lb = float.fromhex(cfg["lb"])
+    if cfg.get("lb_int") and lb == 0:
+        lb = 0                                        # the literal default value, a python int
     ub = None if cfg["ub"] is None else float.fromhex(cfg["ub"])
     return lb, ub
 
@@ -182,9 +194,23 @@ def run_cache(cfg):
         import nitime.timeseries as nts
         import nitime.analysis as nta
         T = nts.TimeSeries(data, sampling_rate=fs)
-        A = nta.SparseCoherenceAnalyzer(T, ij=ij, method=method_of(cfg, with_fs=cfg.get("fs_in_method", True)),
-                                        lb=lb, ub=ub, prefer_speed_over_memory=cfg["psm"],
-                                        scale_by_freq=cfg["sbf"])
+        m = method_of(cfg, with_fs=cfg.get("fs_in_method", True), for_impl=True)
+        if cfg.get("call") == "defaults":
+            kw = {}
+            if m is not None:
+                kw["method"] = m
+            if lb != 0:
+                kw["lb"] = lb
+            if ub is not None:
+                kw["ub"] = ub
+            if not cfg["psm"]:
+                kw["prefer_speed_over_memory"] = False
+            if not cfg["sbf"]:
+                kw["scale_by_freq"] = False
+            A = nta.SparseCoherenceAnalyzer(T, ij, **kw)
+        else:
+            A = nta.SparseCoherenceAnalyzer(T, ij=ij, method=m, lb=lb, ub=ub, prefer_speed_over_memory=cfg["psm"],
+                                            scale_by_freq=cfg["sbf"])
         fs = float(A.method["Fs"])
         cache = A.cache
         o.afreqs = np.asarray(A.frequencies, dtype=float)
@@ -194,10 +220,24 @@ def run_cache(cfg):
         f, _c = ch.cache_fft(data, ij, lb=lb, ub=ub, method=dict(method_of(cfg), Fs=fs),
                              prefer_speed_over_memory=cfg["psm"], scale_by_freq=cfg["sbf"])
     else:
+        m = method_of(cfg, for_impl=True)
         if cfg.get("call") == "pos":
-            f, cache = ch.cache_fft(data, ij, lb, ub, method_of(cfg), cfg["psm"], cfg["sbf"])
+            f, cache = ch.cache_fft(data, ij, lb, ub, m, cfg["psm"], cfg["sbf"])
+        elif cfg.get("call") == "defaults":          # only what differs from the signature's defaults
+            kw = {}
+            if m is not None:
+                kw["method"] = m
+            if lb != 0:
+                kw["lb"] = lb
+            if ub is not None:
+                kw["ub"] = ub
+            if cfg["psm"]:
+                kw["prefer_speed_over_memory"] = True
+            if not cfg["sbf"]:
+                kw["scale_by_freq"] = False
+            f, cache = ch.cache_fft(data, ij, **kw)
         else:
-            f, cache = ch.cache_fft(data, ij, lb=lb, ub=ub, method=method_of(cfg),
+            f, cache = ch.cache_fft(data, ij, lb=lb, ub=ub, method=m,
                                     prefer_speed_over_memory=cfg["psm"], scale_by_freq=cfg["sbf"])
         psd = ch.cache_to_psd(cache, ij)
         coh = ch.cache_to_coherency(cache, ij)
@@ -209,6 +249,8 @@ def run_cache(cfg):
     o.coh = np.asarray(coh)
     o.rp = np.asarray(ch.cache_to_relative_phase(cache, ij))
     o.nw = int(next(iter(cache["FFT_slices"].values())).shape[0])
+    if cfg.get("_light"):
+        return o
     # reference (independent of nitime): mlab.csd on the listed pairs / channels
     wv = window_vals(cfg["window"], nfft)
     o.rf, o.rpsd, o.rcoh = reference(vals, nfft, fs, wv, cfg["ovl"], ijl, sorted(psd))
@@ -243,9 +285,22 @@ def run_seed(cfg):
     sd = seeds if cfg["seed2d"] else seeds[0]
     S = nts.TimeSeries(shaped(sd, cfg.get("form")), sampling_rate=fs)
     T = nts.TimeSeries(shaped(targets, cfg.get("form")), sampling_rate=fs)
-    m = method_of(cfg, with_fs=cfg.get("fs_in_method", True))
+    m = method_of(cfg, with_fs=cfg.get("fs_in_method", True), for_impl=True)
     if cfg.get("call") == "pos":
         A = nta.SeedCoherenceAnalyzer(S, T, m, lb, ub, cfg["psm"], cfg["sbf"])
+    elif cfg.get("call") == "defaults":
+        kw = {}
+        if m is not None:
+            kw["method"] = m
+        if lb != 0:
+            kw["lb"] = lb
+        if ub is not None:
+            kw["ub"] = ub
+        if not cfg["psm"]:
+            kw["prefer_speed_over_memory"] = False
+        if not cfg["sbf"]:
+            kw["scale_by_freq"] = False
+        A = nta.SeedCoherenceAnalyzer(S, T, **kw)
     else:
         A = nta.SeedCoherenceAnalyzer(S, T, method=m, lb=lb, ub=ub,
                                       prefer_speed_over_memory=cfg["psm"], scale_by_freq=cfg["sbf"])
@@ -258,6 +313,8 @@ def run_seed(cfg):
     o.ffull = np.asarray(tsu.get_freqs(fs, cfg["nfft"]), dtype=float)
     o.lbi, o.ubi = band_idx(o.ffull, lb, ub)
     o.ns, o.nt = seeds.shape[0], targets.shape[0]
+    if cfg.get("_light"):
+        return o
     stacked = np.vstack([seeds, targets])
     pairs = [(s_, o.ns + t_) for s_ in range(o.ns) for t_ in range(o.nt)]
     o.rf, _p, rc = reference(stacked, cfg["nfft"], fs, window_vals(cfg["window"], cfg["nfft"]), cfg["ovl"], pairs, [])
@@ -514,8 +571,82 @@ def oracle_zero_pad(cfg):
     return []
 
 
+RESCALE_EXP = [-45, 35, -44, 36, -43, 34, -46, 33]
+
+
+def _eq_rel(a, b):
+    """equal up to a relative 1e-9 of the larger magnitude in the array (no absolute term), same nan pattern"""
+    a = np.asarray(a)
+    b = np.asarray(b)
+    if a.shape != b.shape:
+        return False
+    na, nb = ~np.isfinite(a), ~np.isfinite(b)
+    if np.any(na != nb):
+        return False
+    m = ~na
+    if not np.any(m):
+        return True
+    return bool(np.all(np.abs(a[m] - b[m]) <= 1e-9 * max(float(np.max(np.abs(a[m]))), float(np.max(np.abs(b[m]))))))
+
+
+def oracle_rescale(cfg, o):
+    """Every channel multiplied by its own exact power of two far from the data's scale: coherency, coherence and
+    relative phase must not move, a power spectrum must scale by the square of its channel's factor.  A hidden
+    absolute threshold / eps guard in the cache path fails this on every input."""
+    fails = []
+    c2 = dict(cfg, _light=True)
+    if cfg.get("form") == "int":
+        c2["form"] = "C"                    # the rescaled values are not integers
+    ex = lambda n, off=0: [RESCALE_EXP[(k + off) % len(RESCALE_EXP)] for k in range(n)]
+    try:
+        if cfg["kind"] == "seed":
+            c2["chan_exp"] = {"seeds": ex(o.ns), "targets": ex(o.nt, o.ns)}
+            o2 = run_seed(c2)
+            for name, a, b in (("coherency", o2.coh, o.coh), ("coherence", o2.coherence, o.coherence),
+                               ("relative_phases", o2.relative_phases, o.relative_phases)):
+                if not _eq_rel(a, b):
+                    fails.append(Fail("C09/rescale/SeedCoherenceAnalyzer.%s" % name,
+                                      "SeedCoherenceAnalyzer.%s changes when each channel is multiplied by a power of two "
+                                      "(2^%s): %s" % (name, c2["chan_exp"], _worst(a, b)), str(a), str(b)))
+                    break
+            return fails
+        nch = rows_of(cfg, "data").shape[0]
+        c2["chan_exp"] = {"data": ex(nch)}
+        o2 = run_cache(c2)
+        ij = [tuple(int(v) for v in p) for p in cfg["ij"]]
+        ep = "SparseCoherenceAnalyzer" if cfg["via"] == "analyzer" else "cache_fft"
+        for (i, j) in ij:
+            if not _eq_rel(o2.coh[i, j], o.coh[i, j]):
+                fails.append(Fail("C09/rescale/cache_to_coherency", "%s coherency of pair (%d,%d) changes when the channels are "
+                                  "multiplied by 2^%s: %s" % (ep, i, j, c2["chan_exp"]["data"], _worst(o2.coh[i, j], o.coh[i, j])),
+                                  str(o2.coh[i, j]), str(o.coh[i, j])))
+                break
+            if not _eq_rel(np.asarray(o2.rp)[i, j], np.asarray(o.rp)[i, j]):
+                fails.append(Fail("C09/rescale/cache_to_relative_phase", "relative phase of pair (%d,%d) changes when the channels "
+                                  "are multiplied by 2^%s" % (i, j, c2["chan_exp"]["data"]),
+                                  str(np.asarray(o2.rp)[i, j]), str(np.asarray(o.rp)[i, j])))
+                break
+            if o.an is not None and not (_eq_rel(o2.an["coherence"][i, j], o.an["coherence"][i, j]) and
+                                         _eq_rel(o2.an["relative_phases"][i, j], o.an["relative_phases"][i, j])):
+                fails.append(Fail("C09/rescale/SparseCoherenceAnalyzer", "coherence / relative_phases of pair (%d,%d) change when "
+                                  "the channels are multiplied by 2^%s" % (i, j, c2["chan_exp"]["data"])))
+                break
+        for k in sorted(o.psd):
+            want = np.asarray(o.psd[k]) * 4.0 ** c2["chan_exp"]["data"][k]
+            if not _eq_rel(np.asarray(o2.psd[k]), want):
+                fails.append(Fail("C09/rescale/cache_to_psd", "%s power spectrum of channel %d does not scale by c^2 when the channel "
+                                  "is multiplied by c = 2^%d: %s" % (ep, k, c2["chan_exp"]["data"][k],
+                                                                   _worst(np.asarray(o2.psd[k]), want)),
+                                  str(np.asarray(o2.psd[k])), str(want)))
+                break
+    except Exception as e:
+        fails.append(Fail("C09/rescale/exception", "the computation on rescaled data raised %s: %s" % (type(e).__name__, e)))
+    return fails
+
+
 def oracle(cfg, o):
-    return oracle_zero_pad(cfg) + (oracle_seed(cfg, o) if cfg["kind"] == "seed" else oracle_cache(cfg, o))
+    return (oracle_zero_pad(cfg) + (oracle_seed(cfg, o) if cfg["kind"] == "seed" else oracle_cache(cfg, o))
+            + oracle_rescale(cfg, o))
 
 
 # ----------------------------------------------------------------------------- generator
@@ -577,6 +708,8 @@ def gen_common(rng, ctx_quick, maxwin):
     r = rng.random()
     if r < 0.35:
         lb, ub = 0.0, None
+    elif r < 0.42:
+        lb, ub = 0.0, 0.0                                  # ub = 0 is a legal band: the DC bin alone
     else:
         k1 = rng.randint(0, nb - 1)
         k2 = rng.randint(k1, nb - 1)
@@ -592,6 +725,8 @@ def gen_common(rng, ctx_quick, maxwin):
 def gen_ij(rng, nch):
     r = rng.random()
     allp = [(i, j) for i in range(nch) for j in range(nch)]
+    if r < 0.1:
+        return [list(rng.choice([(0, 0), (0, 1), (1, 0), rng.choice(allp), (nch - 1, nch - 1)]))]   # a single pair
     if r < 0.2:
         ij = allp
     elif r < 0.35:
@@ -643,7 +778,8 @@ def gen_cfg(rng, quick):
             if key in c:
                 c[key] = [[fh(round(float.fromhex(v) * 4) or 1.0) for v in r] for r in c[key]]
     c["ij_form"] = rng.choice(["list", "tuple", "array", "lists"])
-    c["call"] = rng.choice(["kw", "pos"])
+    c["call"] = rng.choice(["kw", "pos", "defaults"])
+    c["lb_int"] = rng.random() < 0.5
     return c
 
 
@@ -691,8 +827,8 @@ def gen_wide_cfg(rng, quick):
     c = {"wide": True, "nfft": nfft, "nfft_in_method": not (nfft == 64 and rng.random() < 0.6), "ovl": ovl,
          "fs": fh(fs), "sbf": rng.random() < 0.6, "psm": rng.random() < 0.5, "lb": fh(lb),
          "ub": None if ub is None else fh(ub), "window": w, "form": form,
-         "ij_form": rng.choice(["list", "tuple", "array", "lists"]), "call": rng.choice(["kw", "pos"]),
-         "fs_in_method": True}
+         "ij_form": rng.choice(["list", "tuple", "array", "lists"]), "call": rng.choice(["kw", "pos", "defaults"]),
+         "lb_int": rng.random() < 0.5, "fs_in_method": True}
     if rng.random() < 0.25:
         ns = rng.choice([1, 2, 4])
         sp = spec(ns + rng.choice([1, 3, 9]))
@@ -700,13 +836,23 @@ def gen_wide_cfg(rng, quick):
         # seeds and targets are rows of one generated block
         c["seeds_spec"] = dict(sp, rows=[0, ns])
         c["targets_spec"] = dict(sp, rows=[ns, sp["nch"]])
-        return c
+        return to_method_none(c, rng) if rng.random() < 0.2 else c
     nch = rng.choice([2, 3, 5, 8, 12])
     c.update({"kind": "cache", "via": "analyzer" if rng.random() < 0.3 else "func", "data_spec": spec(nch),
               "ij": gen_ij(rng, nch) if nch <= 5 else
               [[rng.randrange(nch), rng.randrange(nch)] for _ in range(rng.randint(3, 12))] + [[nch - 1, 0], [0, 0]]})
     if c["via"] == "analyzer":
         c["fs"] = fh(rng.choice([1.0, 2.0, 0.5, 4.0, 10.0]))
+    return to_method_none(c, rng) if rng.random() < 0.2 else c
+
+
+def to_method_none(c, rng):
+    """the same data with method=None: NFFT 64, Hanning, overlap 32, Fs 2 pi (functions) / the sampling rate"""
+    func = c["kind"] == "cache" and c["via"] == "func"
+    fs = 2 * math.pi if func else rng.choice([1.0, 2.0, 0.5, 4.0, 10.0])
+    ub = rng.choice([None, None, fs / 2, 0.0, fs / 4])
+    c.update({"method_none": True, "nfft": 64, "nfft_in_method": False, "ovl": None, "window": {"type": "default"},
+              "fs": fh(fs), "fs_in_method": False, "lb": fh(0.0), "ub": None if ub is None else fh(ub)})
     return c
 
 
